@@ -34,7 +34,13 @@ func checkC13Scte(c CaseC13Scte, x *hx.Ctx) *hx.Failure {
 		st.m = apiExpressible(c.C.Splice)
 		st.sig = buildSpliceAPI(&st.m, c.C.Noise)
 	default:
-		s, err := scte35.NewSCTE35(append([]byte{0}, c.C.Splice.Encode()...))
+		in := append([]byte{0}, c.C.Splice.Encode()...)
+		if c.C.BadCRC > 0 {
+			// the input's own CRC_32 is stale (the decoder does not check it): whatever is emitted must carry a correct one
+			in[len(in)-1-(c.C.BadCRC-1)/8] ^= 1 << uint((c.C.BadCRC-1)%8)
+			x.Label("input-crc-stale")
+		}
+		s, err := scte35.NewSCTE35(in)
 		if err != nil {
 			return hx.Failf("decode-error", "NewSCTE35 failed on a well-formed section: %v", err)
 		}
